@@ -257,6 +257,15 @@ pub fn encode_into<W: Write + Seek>(w: W, cfg: &EncCfg, front: Front, pcm: &[i32
     }
 }
 
+/// Encodes through a sink that accepts at most `max_write` bytes per write call
+/// (0 = unlimited).
+pub fn encode_short_writes(cfg: &EncCfg, front: Front, pcm: &[i32], max_write: usize) -> Result<Vec<u8>, EncErr> {
+    let mut m = crate::io::Mem::new();
+    m.max_write = max_write;
+    encode_into(&mut m, cfg, front, pcm, &[])?;
+    Ok(m.data)
+}
+
 pub fn encode(cfg: &EncCfg, front: Front, pcm: &[i32]) -> Result<Vec<u8>, EncErr> {
     let mut c = std::io::Cursor::new(Vec::new());
     encode_into(&mut c, cfg, front, pcm, &[])?;
